@@ -310,11 +310,20 @@ class PureInterp:
                     if not any(isinstance(v, Obj) and v._name == "suppress" and (r_.kind in v.kinds or "Exception" in v.kinds or (r_.kind.endswith("Error") and "OSError" in v.kinds and r_.kind in ("FileNotFoundError", "PermissionError", "OSError"))) for v in opened):
                         raise
             finally:
+                pending = None
                 for v in reversed(opened):
-                    if isinstance(v, Obj) and v._name == "file":
-                        self.events.append(("close", getattr(v, "path", None)))
-                    elif isinstance(v, Obj) and "with_exit" in self.hooks:
-                        self.hooks["with_exit"](v)
+                    # every context manager's exit runs, also when an inner one raised (as in a real `with a, b:`)
+                    try:
+                        if isinstance(v, Obj) and v._name == "file":
+                            self.events.append(("close", getattr(v, "path", None)))
+                        elif isinstance(v, Obj) and self._dunder(v, "__exit__") is not None:
+                            self.call(self._dunder(v, "__exit__"), (None, None, None), {}, self_obj=v, depth=depth + 1)
+                        elif isinstance(v, Obj) and "with_exit" in self.hooks:
+                            self.hooks["with_exit"](v)
+                    except Raised as exc_:
+                        pending = exc_
+                if pending is not None:
+                    raise pending
         elif isinstance(st, ast.Raise):
             e = st.exc.func if isinstance(st.exc, ast.Call) else st.exc
             raise Raised((dotted(e) or "Exception").rsplit(".", 1)[-1], ast.unparse(st)[:80])
@@ -324,7 +333,9 @@ class PureInterp:
             except Raised as r:
                 for h in st.handlers:
                     names = [dotted(e) for e in (h.type.elts if isinstance(h.type, ast.Tuple) else [h.type])] if h.type is not None else [None]
-                    if None in names or r.kind in [n.rsplit(".", 1)[-1] for n in names if n] or "Exception" in names or self._handler_matches(r, h, module):
+                    base_only = r.kind in ("CancelledError", "KeyboardInterrupt", "SystemExit", "GeneratorExit")
+                    if None in names or "BaseException" in names or r.kind in [n.rsplit(".", 1)[-1] for n in names if n] or (
+                            "Exception" in names and not base_only) or self._handler_matches(r, h, module):
                         if h.name:
                             env[h.name] = Obj("exc:" + r.kind, args=(r.detail,))
                         self.block(h.body, env, module, depth)
@@ -334,8 +345,8 @@ class PureInterp:
             else:
                 self.block(st.orelse, env, module, depth)
             finally:
-                pass
-            self.block(st.finalbody, env, module, depth)
+                # the finally block runs on every way out (exception, return, break); an exception raised in it replaces the pending one
+                self.block(st.finalbody, env, module, depth)
         elif isinstance(st, (ast.FunctionDef, ast.AsyncFunctionDef)):
             fi = getattr(st, "_finfo", None)
             if fi is not None:
@@ -398,7 +409,7 @@ class PureInterp:
 
     def _pycallable(self, v, depth):
         """Interpreter-level callables (lambdas, closures, repo functions) wrapped for host builtins such as sorted(key=...)."""
-        if isinstance(v, FuncInfo) or (isinstance(v, tuple) and v and v[0] in ("lambda", "closure", "bound", "memo")):
+        if isinstance(v, FuncInfo) or (isinstance(v, tuple) and v and v[0] in ("lambda", "closure", "bound", "memo", "partial", "hookattr")):
             return lambda *a, **k: self.apply(v, list(a), k, depth)
         return v
 
@@ -695,6 +706,8 @@ class PureInterp:
             return self.hooks["attr:" + f[1]](f[2], *args, **kwargs)
         if isinstance(f, tuple) and f and f[0] == "closure":
             return self.call(f[1], args, kwargs, depth=depth + 1, closure=f[2])
+        if isinstance(f, tuple) and f and f[0] == "partial":
+            return self.apply(f[1], list(f[2]) + list(args), dict(f[3], **kwargs), depth, node)
         if isinstance(f, tuple) and f and f[0] == "memodeco":
             return ("memo", args[0], {}, f[1])
         if isinstance(f, tuple) and f and f[0] == "memo":
@@ -759,6 +772,8 @@ class PureInterp:
                         return fn(*args, **kwargs)
                     except (ValueError, TypeError) as exc:
                         raise Raised(type(exc).__name__, str(exc))
+            if name == "functools.partial":
+                return ("partial", args[0], tuple(args[1:]), dict(kwargs))
             if name in ("functools.lru_cache", "functools.cache"):
                 is_fn = lambda v: isinstance(v, FuncInfo) or (isinstance(v, tuple) and v and v[0] in ("closure", "lambda", "bound"))
                 if args and is_fn(args[0]):
